@@ -16,6 +16,7 @@ import (
 	"encoding/json"
 	"errors"
 	"fmt"
+	"os"
 	"runtime"
 	"sort"
 	"strings"
@@ -1000,6 +1001,7 @@ func TestVerifC06CleanerRetry(t *testing.T) {
 		pend = append(pend, pending{s, keys, s.nodes})
 	}
 	start := time.Now()
+	tried, removed := len(pend), 0
 	for len(pend) > 0 && time.Since(start) < budget {
 		time.Sleep(100 * time.Millisecond)
 		var rest []pending
@@ -1014,6 +1016,7 @@ func TestVerifC06CleanerRetry(t *testing.T) {
 				rest = append(rest, p)
 				continue
 			}
+			removed++
 			st.Class("cleaner:stale-keys-removed")
 			st.NonTrivial(fmt.Sprintf("%s: stale keys removed by the cleaner after a failed invalidation", p.s.name))
 		}
@@ -1025,10 +1028,19 @@ func TestVerifC06CleanerRetry(t *testing.T) {
 		st.Note("inconclusive: %s: stale keys still present %v after the failed invalidation (retry expected after ~1 s%s)",
 			p.s.name, budget, c06Flag(p.s.fails > 1, ", second retry after ~6 s"))
 	}
-	// whatever the cleaner did, it must not have left persistent keys or touched foreign ones
+	// whatever the cleaner did, it must not have left persistent keys
 	for _, k := range env.AllKeys([]int{0, 1, 2}) {
-		if s := env.Lookup([]int{0, 1, 2}, k); s.TTL <= 0 {
+		if s := env.Lookup([]int{0, 1, 2}, k); s.Present && s.TTL <= 0 {
 			t.Fatalf("TTL clause: key %s is persistent after the cleaner ran", k)
 		}
+	}
+	// Not one retry observed in >= 3 attempts: the clause was not exercised.  That is no verdict
+	// (wall-clock budget only) but no pass either: the unit ends with a non-FAIL exit status,
+	// which the driver reports as INFRA/inconclusive instead of OK.
+	if tried >= 3 && removed == 0 {
+		st.Note("0 of %d failed invalidations were repaired within %v: cleaner clause not exercised", tried, budget)
+		st.Flush()
+		fmt.Printf("INCONCLUSIVE: C06 cleaner: 0 of %d failed invalidations repaired within the wall-clock budget of %v\n", tried, budget)
+		os.Exit(3)
 	}
 }
